@@ -135,6 +135,39 @@ def monitor_size(row, pd, smt, res):
     return None
 
 
+def real_factories(rp, rc):
+    """the names a resolved platform carries, through the real factories (constructors stubbed):
+    returns [(kind, name)] for every name a factory does not know"""
+    from radical.pilot.agent.launch_method.base import LaunchMethod
+    from radical.pilot.agent.scheduler.base import AgentSchedulingComponent
+    from radical.pilot.agent.executing.base import AgentExecutingComponent
+    bad = []
+    saved = (LaunchMethod.__init__, AgentSchedulingComponent.__init__, AgentExecutingComponent.__init__)
+    noop = lambda self, *a, **k: None
+    LaunchMethod.__init__ = AgentSchedulingComponent.__init__ = AgentExecutingComponent.__init__ = noop
+    class _S(object): pass
+    sess = _S(); sess.rcfg = rc
+    try:
+        for lm in [k for k in rc.launch_methods if k != 'order']:
+            try:
+                LaunchMethod.create(lm, rc.launch_methods[lm], None, rpload.NullLog(), rpload.NullLog())
+            except ValueError as e:
+                if 'unknown' in str(e): bad.append(('launch-method', lm))
+            except Exception:
+                pass                              # the class was found; its constructor is not the point here
+        for what, fac, name in (('scheduler', AgentSchedulingComponent, rc.agent_scheduler),
+                                ('executor', AgentExecutingComponent, rc.agent_spawner)):
+            try:
+                fac.create(None, sess)
+            except ValueError as e:
+                if 'unknown' in str(e): bad.append((what, name))
+            except Exception:
+                pass
+    finally:
+        LaunchMethod.__init__, AgentSchedulingComponent.__init__, AgentExecutingComponent.__init__ = saved
+    return bad
+
+
 def run(ctx):
     rp = rpload.load()
     import radical.utils as ru
@@ -175,6 +208,9 @@ def run(ctx):
             if ResourceManager.get_manager(rc.resource_manager) is None:
                 ctx.fail('unknown-resource-manager:%s' % r['label'], rc.resource_manager,
                          {'kind': 'resolve', 'label': r['label'], 'schema': schema})
+            for what, name in real_factories(rp, rc):
+                ctx.fail('unknown-%s:%s' % (what, r['label']), '%s %r named by %s (schema %s) is not known to the factory'
+                         % (what, name, r['label'], schema), {'kind': 'resolve', 'label': r['label'], 'schema': schema})
     ctx.obligation('translator rows == real Session.get_resource_config (%d resource x schema pairs, exhaustive)'
                    % len(seen), 'tie', not bad_tie, str(bad_tie[:2]))
     # factories: the class named by the AST really imports
@@ -267,8 +303,10 @@ def replay(ctx, data):
     sess, errs = make_session(rp)
     if i['kind'] == 'resolve':
         try:
-            sess.get_resource_config(i['label'], i['schema'])
-            return True
+            rc = sess.get_resource_config(i['label'], i['schema'])
+            bad = real_factories(rp, rc)
+            print('observed: unknown to the factories:', bad)
+            return not bad
         except Exception as e:
             print('observed:', repr(e))
             return False
